@@ -23,16 +23,22 @@ ASSUMPTIONS = ['int(x,16) is modelled for pure hex-digit fields only (Python als
                'the PNG container (zlib, filters, CRC: pypng) is outside the model; C16 is about pixel rows']
 PARTIAL = ''
 CLAIM = dict(
-    text=("Coq theorems (closed under the global context) that the modelled writers produce exactly the reference text of "
-          "Spec/P8Format.v (written from the PICO-8 format descriptions) and the modelled readers invert it, for gfx/label, "
-          "gff, map, music and sfx, and that the pixel pack/unpack expressions equal the reference A,R,G,B bit split; byte "
-          "and note-word level facts are sweeps over the regenerated kernels (all 256 bytes, all 65,536 note words) lifted by "
-          "induction over rows. Tie: kernels regenerated from gfx.py/sfx.py/music.py/p8png.py each run (self-tested in Coq), "
-          "line loops hand-modelled and compared with the implementation; the extracted reference encoders are applied to the "
-          "implementation's real output and the PICO-8-written testdata carts."),
+    text=("Theorems C16_gfx, C16_gff, C16_map, C16_music, C16_sfx (Coq, closed under the global context): for every region "
+          "content of the right size the modelled writer produces exactly the reference text of Spec/P8Format.v (written from "
+          "the PICO-8 format descriptions) and the modelled reader maps that text back to the bytes (music: minus the one "
+          "unrepresentable bit); C16_png_read / C16_png_write: the byte read from, and the four channel values stored into, any "
+          "pixel equal the reference A,R,G,B two-bit split; C16_png_layout: the regenerated slice bounds of the raw .p8.png "
+          "reader cut the image into gfx, map, gff, music, sfx, code, version; C16_same_cart: the same memory as .p8 text and "
+          "as .p8.png image decodes to identical regions. Byte / note-word facts are complete vm_compute sweeps over the "
+          "regenerated kernels (all 256 bytes, all 65,536 note words, all 65,536 (channel, byte) pairs) lifted by induction "
+          "over rows, patterns and lines. Tie: kernels regenerated from gfx.py/sfx.py/music.py/p8png.py each run (self-tested "
+          "in Coq), line loops hand-modelled and compared with the implementation; the extracted reference encoders are "
+          "applied to the implementation's real output and to the PICO-8-written testdata carts (.p8 and .p8.png)."),
     note=("Trusted: Coq kernel+VM, translator, extraction, OCaml glue, the reference formats in Spec/P8Format.v as a faithful "
-          "reading of the PICO-8 documentation, the modelling of bytes.fromhex/rstrip/int(...,16). The PNG container is pypng's."),
-    technique='Coq proof (sweeps on regenerated kernels lifted by induction) + correspondence + extracted reference encoders as monitor',
+          "reading of the PICO-8 documentation, the modelling of bytes.fromhex/rstrip/int(...,16). The PNG container "
+          "(zlib, filters, CRC) is pypng's and outside the model; whole-image row loops of p8png.py are modelled "
+          "(Model/PngStego.v) and correspondence-tested, the theorems are per pixel."),
+    technique='Coq proof (complete sweeps on regenerated kernels lifted by induction) + correspondence + extracted reference encoders as monitor',
     design_ref='8 C16')
 
 
@@ -156,6 +162,15 @@ def run_impl(case):
             return {'res': 'OK ' + lib.hx(s._data)}
         except Exception as e:  # noqa
             return {'res': 'ERR ' + lib.exc_name(e)}
+    if k == 'stego' and 'row' in case:
+        # replay of one minimised pixel
+        from pico8.game.formatter import p8png
+        row = case['row']
+        if row[0] == 'unpack':
+            got = p8png.get_picodata_from_pngdata(1, 1, [bytearray(row[1])], {'planes': 4})[0]
+            return {'rows': [('unpack', row[1], got)]}
+        new = p8png.get_pngdata_from_picodata(bytes([row[2]]), [bytearray(row[1])], {'planes': 4})[0]
+        return {'rows': [('pack', row[1], row[2], list(new))]}
     if k == 'stego':
         from pico8.game.formatter import p8png
         rows = []
@@ -243,6 +258,14 @@ def monitor_requests(case, obs):
                 reqs.append('f %d %s %s' % (SECID[sec], ls, obs['png'][sec]))
         return reqs
     return []
+
+
+def minimize(case, obs, answers):
+    if case['kind'] == 'stego' and 'row' not in case:
+        for row, a in zip(obs['rows'], answers):
+            if a != 'true':
+                return {'kind': 'stego', 'row': [row[0], list(row[1])] + ([row[2]] if row[0] == 'pack' else [])}
+    return case
 
 
 def signature(case, obs):
